@@ -197,6 +197,12 @@ def run(ctx):
             fs = [f for f in lexpr.fns if f.self_ty == ty and f.impl_trait == tr and not f.derived]
             if fs:
                 r3.ok("%s has a hand-written %s" % (ty, tr), fs[0])
+    # "stack depth may grow only with nesting depth, which the parser bounds": every cycle of the parser's call graph is
+    # charged to the depth limit (shared with C03)
+    from .. import depth
+    depth.check_depth(ctx, lexpr,
+                      ctx.rule("R-DEPTH-CYCLE", "every cycle of the parser's call graph is charged to the depth limit"),
+                      ctx.rule("R-DEPTH-BALANCE", "the depth counter is restored on every exit, stays in [-1,0], starts >= 101"))
 
 
 def PAYLOAD_MARKERS_IN(n):
